@@ -5,6 +5,7 @@ BW = "backend/BackendWorker.h"
 TC = "core/ThreadContextManager.h"
 LM = "core/LoggerManager.h"
 MAC = "LogMacros.h"
+PFH = "backend/PatternFormatter.h"
 CASES = [
  # ---------------- C01
  dict(name="c01-commit_write-relaxed", ids=["C01"], rule="C01.R1b", subs=[(B, "_atomic_writer_pos.store(_writer_pos, std::memory_order_release)", "_atomic_writer_pos.store(_writer_pos, std::memory_order_relaxed)")]),
@@ -711,4 +712,38 @@ CASES = [
             _process_named_args_format_message(transit_event->macro_metadata->message_format()));""", """          auto parsed = _process_named_args_format_message(transit_event->macro_metadata->message_format());
           std::string const pos_key = parsed.first;
           auto const [res_it, inserted] = _named_args_templates.try_emplace(pos_key, parsed);""")]),
+
+ # ---------------- C12
+ dict(name="c12-named-args-swapped", ids=["C12"], rule="C12.R1b", subs=[(PFH, '"thread_id"_a = "",\n      "thread_name"_a = "",', '"thread_name"_a = "",\n      "thread_id"_a = "",')]),
+ dict(name="c12-attribute_from_string-mismapped", ids=["C12"], rule="C12.R1b", subs=[(PFH, '{"full_path", PatternFormatter::Attribute::FullPath},', '{"full_path", PatternFormatter::Attribute::FileName},')]),
+ dict(name="c12-thread_name-into-thread_id", ids=["C12"], rule="C12.R2b", subs=[(PFH, "_set_arg_val<Attribute::ThreadId>(thread_id);", "_set_arg_val<Attribute::ThreadId>(thread_name);")]),
+ dict(name="c12-description-entry-dropped", ids=["C12"], rule="C12.R3a", subs=[("backend/BackendOptions.h", '"WARNING",  "ERROR",    "CRITICAL", "BACKTRACE", "NONE", "DYNAMIC"};', '"WARNING",  "ERROR",    "CRITICAL", "BACKTRACE", "DYNAMIC"};')]),
+ dict(name="c12-descriptions-swapped", ids=["C12"], rule="C12.R3a", subs=[("backend/BackendOptions.h", '"TRACE_L3", "TRACE_L2", "TRACE_L1", "DEBUG",     "INFO", "NOTICE",', '"TRACE_L3", "TRACE_L2", "TRACE_L1", "DEBUG",     "NOTICE", "INFO",')]),
+ dict(name="c12-unknown-attribute-ignored", ids=["C12"], rule="C12.R4b", subs=[(PFH, """        if (id < 0)
+        {
+          QUILL_THROW(QuillError{"Invalid format pattern, attribute with name \\"" + attr_name + "\\" is invalid"});
+        }""", """        if (id < 0)
+        {
+          arg_identifier_pos = pattern.find_first_of('%');
+          continue;
+        }""")]),
+ dict(name="c12-guard-sets-other-attribute", ids=["C12"], rule="C12.R2a", subs=[(PFH, """    if (_is_set_in_pattern[Attribute::FullPath])
+    {
+      _set_arg_val<Attribute::FullPath>(log_statement_metadata.full_path());""", """    if (_is_set_in_pattern[Attribute::FileName])
+    {
+      _set_arg_val<Attribute::FullPath>(log_statement_metadata.full_path());""")]),
+ dict(name="c12-short-source-location-source", ids=["C12"], rule="C12.R2b", subs=[(PFH, "_set_arg_val<Attribute::ShortSourceLocation>(log_statement_metadata.short_source_location());", "_set_arg_val<Attribute::ShortSourceLocation>(log_statement_metadata.source_location());")]),
+ dict(name="c12-caller-swaps-id-name", ids=["C12"], rule="C12.R2f", subs=[(BW, """        _dispatch_transit_event_to_sinks(transit_event, thread_context.thread_id(),
+                                         thread_context.thread_name());""", """        _dispatch_transit_event_to_sinks(transit_event, thread_context.thread_name(),
+                                         thread_context.thread_id());""")]),
+ dict(name="c12-multiline-with-named-args", ids=["C12"], rule="C12.R5a", subs=[(BW, """    if (transit_event.logger_base->pattern_formatter->get_options().add_metadata_to_multi_line_logs &&
+        (!transit_event.named_args || transit_event.named_args->empty()))""", """    if (transit_event.logger_base->pattern_formatter->get_options().add_metadata_to_multi_line_logs)""")]),
+ dict(name="c12-strip-all-trailing", ids=["C12"], rule="C12.R5b", subs=[(BW, "        ? transit_event.formatted_msg->size() - 1\n        : transit_event.formatted_msg->size();", "        ? transit_event.formatted_msg->size() - 2\n        : transit_event.formatted_msg->size();")]),
+ dict(name="c12-loglevel_from_string-wrong-enum", ids=["C12"], rule="C12.R3b", subs=[("core/LogLevel.h", '  if (log_level == "notice")\n  {\n    return LogLevel::Notice;', '  if (log_level == "notice")\n  {\n    return LogLevel::Info;')]),
+ dict(name="c12-no-final-newline", ids=["C12"], rule="C12.R4c", subs=[(PFH, '    pattern += "\\n";\n', '    if (pattern.empty()) { pattern += "\\n"; }\n')]),
+ dict(name="c12-short-code-level-mixup", ids=["C12"], rule="C12.R2e", subs=[(BW, """    std::string_view const log_level_short_code =
+      log_level_to_string(transit_event.log_level(), _options.log_level_short_codes.data(),
+                          _options.log_level_short_codes.size());""", """    std::string_view const log_level_short_code =
+      log_level_to_string(transit_event.macro_metadata->log_level(), _options.log_level_short_codes.data(),
+                          _options.log_level_short_codes.size());""")]),
 ]
